@@ -9,7 +9,7 @@ CONF = dict(
     assumptions=['frame theorems hold for every hash function (H is universally quantified)',
                  'sensitivity theorems (segwit v0: pre-image and digest; taproot: pre-image; legacy, with or without RANGEPROOF: pre-image, no hash hypothesis needed) take an ideal hash as hypothesis: injective, 32-byte output, and for v0 never the all-zero word',
                  'segwit v0 hashes the issuance list as 0x00-or-issuance without a delimiter: injective only for lists with the same presence pattern or different total length (hypothesis iss_compatible, which every single-field perturbation meets)',
-                 'legacy SINGLE with index > 0 (the blanked earlier outputs are not wire-representable, so the hashed copy is outside wf_tx) has no sensitivity theorem: decided on the implementation by the exhaustive perturbation matrix S'],
+                 'legacy SINGLE with index > 0: the blanked earlier outputs are not wire-representable, so the sensitivity theorem asks well-formedness of the hashed copy without them (legacy_core); the blanks are equal on both sides and cancel'],
     explanation='theorems (frame half in full for all three algorithms; sensitivity half proved for segwit v0, taproot and legacy with or without RANGEPROOF): for legacy, segwit v0 and taproot the pre-image is a function of an explicit covered view of '
                 '(transaction, index, hash type, spent data); the matrix rows of the property statement are corollaries. K: digests of all three algorithms vs the executable '
                 'model. S: for each generated (tx, algorithm, index, hash type) every field class x position is perturbed on the implementation and the digest must change iff covered.',
@@ -17,7 +17,7 @@ CONF = dict(
 )
 
 TEXT = dict(
-    text='Machine-checked proof (Coq): for each of the three signature-hash algorithms, all transactions, indexes and hash types, the pre-image is proved to depend only on an explicit covered view (so fields outside the coverage never change the digest, for any hash function); the rows named in the property (ANYONECANPAY, NONE, SINGLE, other sequences, output proofs without the RANGEPROOF bit) are corollaries. The converse (equal digests force equal covered views, i.e. a covered field always changes the digest) is proved for segwit v0, taproot and legacy (every hash type; for SINGLE only at index 0, where no earlier output is blanked) under an ideal-hash hypothesis, and is established for all three algorithms on the implementation by enumerating the complete perturbation matrix for every generated case; and the model is tied to the code by bit-exact digests.',
-    note=COMMON_NOTE + 'Partial only for legacy SINGLE above index 0 (sensitivity decided by the perturbation matrix on the implementation).',
+    text='Machine-checked proof (Coq): for each of the three signature-hash algorithms, all transactions, indexes and hash types, the pre-image is proved to depend only on an explicit covered view (so fields outside the coverage never change the digest, for any hash function); the rows named in the property (ANYONECANPAY, NONE, SINGLE, other sequences, output proofs without the RANGEPROOF bit) are corollaries. The converse (equal digests force equal covered views, i.e. a covered field always changes the digest) is proved for segwit v0, taproot and legacy (every hash type and input index, SIGHASH_SINGLE above index 0 included) under an ideal-hash hypothesis, and is established for all three algorithms on the implementation by enumerating the complete perturbation matrix for every generated case; and the model is tied to the code by bit-exact digests.',
+    note=COMMON_NOTE + 'The sensitivity half is stated on pre-images for legacy and taproot and on digests for segwit v0; it is additionally enumerated on the implementation by the perturbation matrix.',
     technique='Coq proof (pre-image is a function of the covered view) + bit-exact differential check + exhaustive perturbation matrix on the implementation',
 )
